@@ -95,6 +95,7 @@ type Enc struct {
 	frameAllowed map[string][]string // declared modifies targets (entry-state index terms) by heap key
 	frameWhole   map[string]bool
 	inferredFn   *ssa.Function
+	noSide       bool // do not add field-invariant side facts to clauses (lemma units)
 }
 
 type pendingStore struct {
@@ -111,6 +112,9 @@ func (e *Enc) checkPendingFieldInvs(st *State, pos token.Pos) {
 		t, _ := e.fieldInvTerm(st, ps.addr.key, cur)
 		e.oblige(st, "fieldinv", ps.fi.Type+"."+ps.fi.Field, t, pos)
 	}
+	// re-established here; whoever changes the locations later (a callee, another
+	// goroutine) has the same obligation in its own verification unit
+	e.pendingFI = nil
 }
 
 type inputVar struct {
